@@ -163,7 +163,7 @@ class GaussianLikelihood(Likelihood):
     def _log_likelihood_gradient(
         self, predictions: ndarray, predictions_jacobian: ndarray
     ) -> ndarray:
-        dL_dF = (self.y - predictions) * self.inv_sigma_sqr
+        dL_dF = ((self.y - predictions) * self.inv_sigma) * self.inv_sigma
         return dL_dF @ predictions_jacobian
 
 
